@@ -110,7 +110,8 @@ class GenCheck(Check):
         gen = {"schemas": list(schemas), "opts": opts, "props": props, "only": only, "skip": skip, "hgen_extra": list(hgen_extra), "key": k, "extra_gen": [[ek, list(es), OPTSETS[eo]] for (ek, es, eo) in extra_gen],
                "libs": [os.path.basename(l) for l in (libs or [LIB])]}
         label = "%s[%s]" % (key, optname)
-        rep = self.run_pkg(self.mod, "./%s/gen/internal" % k, pkgdir, "internal", libs or [LIB], regex, params=params, label=label, gen=gen, soft_trunc=True, **kw)
+        st = kw.pop("soft_trunc", True)
+        rep = self.run_pkg(self.mod, "./%s/gen/internal" % k, pkgdir, "internal", libs or [LIB], regex, params=params, label=label, gen=gen, soft_trunc=st, **kw)
         trunc = (rep or {}).get("_truncated") or []
         for step in ladder:
             if not trunc:
@@ -118,14 +119,15 @@ class GenCheck(Check):
             p2 = dict(params or {})
             p2.update(step)
             rx = "^(%s)$" % "|".join(re.escape(n) for n in trunc)
-            rep2 = self.run_pkg(self.mod, "./%s/gen/internal" % k, pkgdir, "internal", libs or [LIB], rx, params=p2, label=label, gen=gen, soft_trunc=True, **kw)
+            rep2 = self.run_pkg(self.mod, "./%s/gen/internal" % k, pkgdir, "internal", libs or [LIB], rx, params=p2, label=label, gen=gen, soft_trunc=st, **kw)
             still = (rep2 or {}).get("_truncated") or []
             for n in trunc:
                 if n not in still:
                     self.reduced.append({"harness": n, "schema": label, "completed_with": step})
             trunc = still
-        for n in trunc:
-            self.not_covered.append({"harness": n, "schema": label, "reason": "path/wall budget exhausted at the smallest bound"})
+        if st != "record":
+            for n in trunc:
+                self.not_covered.append({"harness": n, "schema": label, "reason": "path/wall budget exhausted at the smallest bound"})
         return rep
 
     def finish(self, **kw):
